@@ -196,6 +196,38 @@ pub fn probe_frames(n: u64) -> Vec<Vec<u8>> {
 
 /// connections crafted to leave state behind: header blocks that change HPACK state and then fail,
 /// partial TLS records, unterminated heads
+/// One connection each whose single data segment is filled to the IP limit with thousands of
+/// tiny, individually well-formed units (handshake records that are no ClientHello,
+/// change_cipher_spec records, empty SETTINGS frames after the preface): work and stack depth per
+/// packet must not follow the number of units in it.
+pub fn jumbo_connections() -> Vec<Vec<Vec<u8>>> {
+    let mut out = Vec::new();
+    let units: [(&[u8], &[u8], u16); 4] = [
+        (&[], &[0x16, 0x03, 0x03, 0x00, 0x04, 0x00, 0x00, 0x00, 0x00], 443),
+        (&[], &[0x16, 0x03, 0x01, 0x00, 0x04, 0x0e, 0x00, 0x00, 0x00], 443),
+        (&[], &[0x14, 0x03, 0x03, 0x00, 0x01, 0x01], 443),
+        (b"PRI * HTTP/2.0\r\n\r\nSM\r\n\r\n", &[0, 0, 0, 4, 0, 0, 0, 0, 0], 80),
+    ];
+    for (i, (pre, unit, port)) in units.iter().enumerate() {
+        let mut payload = pre.to_vec();
+        while payload.len() + unit.len() <= 65000 {
+            payload.extend_from_slice(unit);
+        }
+        for v6 in [false, true] {
+            let ep = if v6 {
+                Endpoints { client: format!("2001:db8:77::{:x}", 1 + i).parse().unwrap(), server: "2001:db8:78::1".parse().unwrap(), cport: 42000 + i as u16, sport: *port }
+            } else {
+                Endpoints::v4([10, 68, i as u8, 1], 42000 + i as u16, [10, 69, 0, 1], *port)
+            };
+            let mut s = Script::new(ep, Link::Ethernet, 7000 + i as u32, 9000);
+            s.handshake();
+            s.c_data(&payload);
+            out.push(std::mem::take(&mut s.frames));
+        }
+    }
+    out
+}
+
 fn stateful_poisons(r: &mut Rng) -> Vec<Vec<Vec<u8>>> {
     use crate::h2gen::{self, HeadersOpts};
     let mut out = Vec::new();
@@ -862,7 +894,8 @@ pub fn run(ctx: &mut Ctx) {
 
     // ---- W5: connections crafted to leave state behind, each followed at once by the probe
     st.tag = "stateful-poison";
-    let poisons = stateful_poisons(&mut ctx.rng_global(1, 5));
+    let mut poisons = stateful_poisons(&mut ctx.rng_global(1, 5));
+    poisons.extend(jumbo_connections());
     for (pi, conn) in poisons.iter().enumerate() {
         if !ctx.mine(pi as u64) && ctx.nshards > 1 && pi as u64 % ctx.nshards as u64 != ctx.shard as u64 {
             continue;
@@ -910,6 +943,26 @@ pub fn run(ctx: &mut Ctx) {
             }
         }
     }
+    // whole frames above the default size limit (complete in the buffer, not merely announced),
+    // alone and between ordinary frames
+    for (t, len) in [(0u8, 16385usize), (1, 16400), (9, 20000), (0x0b, 16385), (4, 16386)] {
+        let mut f = b"PRI * HTTP/2.0\r\n\r\nSM\r\n\r\n".to_vec();
+        f.extend_from_slice(&[0, 0, 0, 4, 0, 0, 0, 0, 0]);
+        f.extend_from_slice(&[(len >> 16) as u8, (len >> 8) as u8, len as u8, t, 0, 0, 0, 0, (t % 2)]);
+        f.extend(std::iter::repeat(0x41).take(len));
+        f.extend_from_slice(&[0, 0, 4, 8, 0, 0, 0, 0, 0, 0, 0, 0x10, 0]);
+        stream_seeds.push(f[24..].to_vec());
+        stream_seeds.push(f);
+    }
+    // very many small records / frames in one buffer: handshake records that are no ClientHello
+    // (HelloRequest, ServerHelloDone-like), change_cipher_spec records, empty SETTINGS frames
+    for (unit, count) in [(&[0x16u8, 0x03, 0x03, 0x00, 0x04, 0x00, 0x00, 0x00, 0x00][..], 7000usize), (&[0x16, 0x03, 0x01, 0x00, 0x04, 0x0e, 0x00, 0x00, 0x00][..], 600), (&[0x14, 0x03, 0x03, 0x00, 0x01, 0x01][..], 9000), (&[0, 0, 0, 4, 0, 0, 0, 0, 0][..], 7000)] {
+        let mut v = Vec::with_capacity(unit.len() * count);
+        for _ in 0..count {
+            v.extend_from_slice(unit);
+        }
+        stream_seeds.push(v);
+    }
     // streams that change HPACK state and then fail or stop (table size updates, inserts,
     // references to entries that do not exist)
     for i in 0..8u64 {
@@ -922,7 +975,9 @@ pub fn run(ctx: &mut Ctx) {
     let mut offered = 0u64;
     let mut sidx = 0u64;
     for s in &stream_seeds {
-        for cut in (0..=s.len()).step_by(ctx.scale(3, 1, 29) as usize) {
+        // long seeds (tens of KiB) are cut at 64 positions and offered whole, short ones densely
+        let step = if s.len() > 4096 { s.len() / 64 } else { ctx.scale(3, 1, 29) as usize };
+        for cut in (0..=s.len()).step_by(step).chain(std::iter::once(s.len())) {
             sidx += 1;
             if ctx.mine(sidx) {
                 stream_targets(ctx, &mut r, &s[..cut]);
@@ -990,7 +1045,9 @@ pub fn run(ctx: &mut Ctx) {
     if !ctx.miri() {
         let rounds = ctx.scale(6, 200, 0) / ctx.nshards as u64 + 1;
         for _ in 0..rounds {
-            let batch: Vec<Vec<u8>> = (0..600).map(|_| { let s = r.usize(seeds.len()); mutate(&mut r, &seeds[s]) }).collect();
+            let mut batch: Vec<Vec<u8>> = (0..600).map(|_| { let s = r.usize(seeds.len()); mutate(&mut r, &seeds[s]) }).collect();
+            // the jumbo segments reach the workers (whose threads have the default stack) too
+            batch.extend(jumbo_connections().into_iter().flatten());
             pool_stage(ctx, &mut r, &batch);
         }
     }
